@@ -18,7 +18,8 @@ Prefix(s, n) == {s[i] : i \in 1..n}
 KeyOps  == {"setitem", "setdefault"}
 \* the argument of update / |= / the constructor may be a plain dict, a list of pairs, keyword arguments or a
 \* fixed-entry dictionary of ANOTHER type (which may hold keys this type does not declare): same rule for all
-ListOps == {"update_dict", "update_pairs", "update_kwargs", "ior", "update_fd", "ior_fd"}
+\* "..._mixed": a positional mapping (the first half of the keys) AND keyword arguments (the rest) in one call
+ListOps == {"update_dict", "update_pairs", "update_kwargs", "ior", "update_fd", "ior_fd", "update_mixed"}
 SelfOps == {"copy", "pickle"}
 
 (* does operation o name a key outside Decl? *)
@@ -29,7 +30,7 @@ NamesUndeclared(o, Decl) ==
 
 (* --- the design: what each operation must do to mapping m ----------------------------- *)
 PostP(m, Decl, o) ==
-  CASE o.op \in {"construct", "construct_fd"} ->
+  CASE o.op \in {"construct", "construct_fd", "construct_mixed"} ->
          \* construction from a mapping: rejected as a whole if any key is undeclared
          IF Range(o.ks) \subseteq Decl
          THEN [d |-> Assign(<<>>, Range(o.ks), o.v), res |-> "ok"]
